@@ -87,6 +87,11 @@ def make_plan(seed: int, tier: str, index: int) -> dict[str, Any]:
         pairs = [pairs[i] for i in sorted(f.sample(range(len(pairs)), cap))]
     plan = {"property": PROP, "seed": seed, "doc": doc, "corruptions": singles + pairs,
             "retry_mod": f.choice([2, 3, 5]), "retry_off": f.randrange(5)}
+    if index % 12 == 5:
+        # every corrupted variant of this chart also carries a run of unparsable lines in its
+        # sync section (thresholds on "too many unparsable lines")
+        plan["sync_junk"] = {"n": 17 + (index // 12) % 60, "kind": index % 8, "stride": 1 + index % 3,
+                             "tail": (index // 12) % 3}
     if f.random() < 0.25:
         # the stored file is read through a reader whose sized reads / readline return short
         # (legal); a correct tree reads it all the same
@@ -231,7 +236,12 @@ def classify(doc: dict[str, Any], sync: list[str], res0: bool) -> tuple[str, dic
     return label, info
 
 
-def apply_corruption(doc: dict[str, Any], c: dict[str, Any]) -> tuple[str, str, dict[str, Any]]:
+SYNC_JUNK = ["", "  free text", "  {t} = N 8 0", "  {t} = S 64 10", "  {t} = E two words", "  100% {t} %s",
+             "  {t} = Q 1 2", "\t{t} = N 0 0"]  # no sync kind claims any of these
+
+
+def apply_corruption(doc: dict[str, Any], c: dict[str, Any],
+                     junk: dict[str, Any] | None = None) -> tuple[str, str, dict[str, Any]]:
     """-> (text, expected label, info).  Labels: base / must-raise / may-parse / unspecified /
     ok / n-a (a second fault that no longer applies)."""
     d = copy.deepcopy(doc)
@@ -248,6 +258,15 @@ def apply_corruption(doc: dict[str, Any], c: dict[str, Any]) -> tuple[str, str, 
     if res0:
         d["meta"] = [[a, ("0" if a == "Resolution" else b)] for a, b in d["meta"]]
     label, info = classify(d, sync, res0)
+    if junk:
+        # storage fault on top: unparsable lines (skipped and reported, by C14) in front of and
+        # between the sync lines - they change nothing about what the tempo data says, so the
+        # verdict demanded for the file is the same (a dispatcher that gives up on a noisy
+        # section never sees the corruption behind the noise)
+        lines = [SYNC_JUNK[(junk["kind"] + i * junk["stride"]) % len(SYNC_JUNK)].replace("{t}", str(7 * i))
+                 for i in range(junk["n"])]
+        k = junk["n"] - junk["tail"]
+        sync = lines[:k] + sync[:1] + lines[k:] + sync[1:]
     secs = gen.sections(d)
     secs[1][1] = sync
     return gen.render_sections(secs), label, info
@@ -357,7 +376,7 @@ def execute(plan: dict[str, Any]) -> dict[str, Any]:
     probe_ticks = sorted(set(tempo_ticks + [t + 1 for t in tempo_ticks] + governed_ticks(doc)
                              + [0, max_tick(doc) + 7]))
     for ci_, c in enumerate(plan["corruptions"]):
-        text, label, info = apply_corruption(doc, c)
+        text, label, info = apply_corruption(doc, c, plan.get("sync_junk") if c["kind"] != "none" else None)
         kind = c["kind"]
         counters[label.replace("-", "_")] += 1
         if label == "n-a":
